@@ -2916,7 +2916,7 @@ impl LpgStore {
             .next_node_id
             .fetch_update(Ordering::SeqCst, Ordering::SeqCst, |current| {
                 if id_val >= current {
-                    Some(id_val + 1)
+                    Some(id_val.saturating_add(1))
                 } else {
                     None
                 }
@@ -2963,7 +2963,7 @@ impl LpgStore {
             .next_node_id
             .fetch_update(Ordering::SeqCst, Ordering::SeqCst, |current| {
                 if id_val >= current {
-                    Some(id_val + 1)
+                    Some(id_val.saturating_add(1))
                 } else {
                     None
                 }
@@ -2994,7 +2994,7 @@ impl LpgStore {
             .next_edge_id
             .fetch_update(Ordering::SeqCst, Ordering::SeqCst, |current| {
                 if id_val >= current {
-                    Some(id_val + 1)
+                    Some(id_val.saturating_add(1))
                 } else {
                     None
                 }
@@ -3031,7 +3031,7 @@ impl LpgStore {
             .next_edge_id
             .fetch_update(Ordering::SeqCst, Ordering::SeqCst, |current| {
                 if id_val >= current {
-                    Some(id_val + 1)
+                    Some(id_val.saturating_add(1))
                 } else {
                     None
                 }
